@@ -789,9 +789,7 @@ Proof.
     match type of H with (if ?X then _ else _) = _ => destruct X end; [inversion H; subst; apply keys_eq_refl|].
     pose proof (bind_tail_keys_eq w l ns name uid node [x] [x] fl {| a_policy := policy_of l; a_node := node; a_uid := pd_uid l |}) as [Ht _].
     cbv zeta in Ht. rewrite H in Ht. exact Ht.
-  - exfalso. unfold first_of_key in Ef. destruct (by_key (w_ipam w) (pod_key l)) as [|kv rest] eqn:Ebk.
-    + assert (In (x0, e0) (by_key (w_ipam w) (pod_key l))) as Hin by (by apply by_key_spec). by rewrite Ebk in Hin.
-    + destruct (o_first o); [|done]. destruct (i_alloc (w_ipam w) !! n); [|done]. by destruct (str_eqb _ _).
+  - exfalso. apply first_of_key_none in Ef as [_ Hfree]. by destruct (Hfree x0 e0 He0).
 Qed.
 
 Lemma chg_cnt_other (K : str → Prop) key uid i i' X : PluginBindP.chg K key uid i i' → has_prefix X key = false →
